@@ -17,6 +17,7 @@ import (
 	"os/exec"
 	"path/filepath"
 	"strings"
+	"sync"
 	"sync/atomic"
 	"testing"
 	"time"
@@ -181,7 +182,18 @@ func TestRoundTrip(t *testing.T) {
 		name := fmt.Sprintf("rt/secret-%d", i)
 		total += len(val)
 		cl := setec.Client{Server: s.srv.URL}
+		if i%4 == 1 {
+			// the name has a past: two earlier versions, the newer one deleted again -- what is put now must still
+			// come back under the version number the put reports
+			cl.Put(ctx, name, []byte("an earlier value"))
+			if v2, err := cl.Put(ctx, name, []byte("a newer value, soon deleted")); err == nil {
+				cl.DeleteVersion(ctx, name, v2)
+			}
+		}
 		ver, err := cl.Put(ctx, name, val)
+		if err == nil {
+			err = cl.Activate(ctx, name, ver)
+		}
 		w.Put(Event{"ev": "put", "class": what, "len": len(val), "sum": sum(val), "ok": map[bool]string{true: "t", false: "f"}[err == nil]})
 		if err != nil {
 			res.Violate("roundtrip put "+what, fmt.Sprintf("put of a %d-byte value (%s) failed: %v", len(val), what, err), nil)
@@ -264,6 +276,61 @@ func cacheValue(path, name string) ([]byte, bool) {
 		return nil, false
 	}
 	return vault.CacheEntryValue(data, name)
+}
+
+// TestConcurrentGets: readers fetch distinct large values at the same time through the real HTTP API (race
+// detector on): every response must carry exactly its own secret's bytes.
+func TestConcurrentGets(t *testing.T) {
+	dir := vh.Dir(t)
+	res := vh.NewResult(t, "e2e-concurrent")
+	s := &sys{dir: filepath.Join(dir, "srvc")}
+	os.MkdirAll(s.dir, 0o700)
+	s.start(t)
+	defer s.stop()
+	r := vh.Rand(99)
+	const n = 8
+	vals := make([][]byte, n)
+	cl := setec.Client{Server: s.srv.URL}
+	ctx := context.Background()
+	for i := range vals {
+		vals[i] = make([]byte, 256<<10)
+		r.Read(vals[i])
+		if _, err := cl.Put(ctx, fmt.Sprintf("conc/blob-%d", i), vals[i]); err != nil {
+			t.Fatal(err)
+		}
+	}
+	rounds := vh.EnvInt("VERIF_TRACES", 30)
+	var wg sync.WaitGroup
+	var reads atomic.Int64
+	for g := 0; g < n; g++ {
+		wg.Add(1)
+		go func(g int) {
+			defer wg.Done()
+			c := setec.Client{Server: s.srv.URL}
+			for k := 0; k < rounds; k++ {
+				i := (g + k) % n
+				sv, err := c.Get(ctx, fmt.Sprintf("conc/blob-%d", i))
+				reads.Add(1)
+				if err != nil {
+					res.Violate("concurrent get error", fmt.Sprintf("Get of conc/blob-%d failed while other requests were in flight: %v", i, err), nil)
+					return
+				}
+				if !bytes.Equal(sv.Value, vals[i]) {
+					which := "no stored value"
+					for j := range vals {
+						if bytes.Equal(sv.Value, vals[j]) {
+							which = fmt.Sprintf("the value of conc/blob-%d", j)
+						}
+					}
+					res.Violate("concurrent get bytes", fmt.Sprintf("Get of conc/blob-%d returned %d bytes that are %s", i, len(sv.Value), which), nil)
+					return
+				}
+			}
+		}(g)
+	}
+	wg.Wait()
+	res.Set("reads", int(reads.Load()))
+	res.Write(t)
 }
 
 // ---- the CLI ----
